@@ -120,8 +120,12 @@ PROPS = {
         "theorems": ["C13_request_refines_spec", "C13_location_is_native_path", "C13_failed_request_changes_nothing", "C13_one_response_per_request_in_order",
                      "C13_first_failure_stops_execution", "C13_all_executed_without_failure", "C13_cases_exhaustive",
                      "C13_loop_total", "C13_tree_stays_tree"],
-        "components": ["fsmodel"],
-        "rule": "cases = batches of request lists / request histories on a real NativeFileStore in a temporary directory initialised to "
+        "components": ["fsmodel", "recv"],
+        "rule": "Component recv (transaction clause): the lock-step scripts of the receive transaction, a quarter of which carry filestore "
+                "requests in their Metadata PDU (create a file, make a directory; fresh names, so each succeeds once and would fail if run "
+                "again) under all the perturbations of those scripts (lost / late / duplicated Metadata, cancel, suspend, faults); a "
+                "response is printed as the request it answers and compared with the model's, its status and its effect on the real "
+                "filestore are checked by the oracle. Component fsmodel: cases = batches of request lists / request histories on a real NativeFileStore in a temporary directory initialised to "
                 "{f1, f2, d1/, d1/f}. X: a whole request list carried by a Metadata PDU into a real RecvTransaction (unacknowledged, no file) "
                 "and executed by the receiver's own fail-the-rest loop when the EOF arrives; statuses read from the Finished indication, then "
                 "the sorted recursive listing with contents. Every list of up to 3 requests over 57 requests (6 single-name actions x "
@@ -141,9 +145,11 @@ PROPS = {
                       "NotPerformed without effect, and always terminates; trees stay well-formed. Tied to the code by bounded-exhaustive and "
                       "random request lists run through the real receiver loop. This is the right level for the filestore clauses of the property, "
                       "which quantify over all request sequences.",
-        "level_note": "NOT covered yet (to be added on top of this component with the Recv/Send transaction models): that the list runs only after "
-                      "a successful delivery and only once per transaction, and that the same responses reach the Finished PDU and the sending "
-                      "user. Trusted: Coq kernel; extraction; driver/harness; the behaviour of std::fs on a directory tree as modelled in "
+        "level_note": "Transaction clause (the list runs only in a finalisation that ends without error, once per transaction, in order; the "
+                      "same responses reach the user and the Finished PDU): no separate theorem - it follows from C04 (finalisation cannot "
+                      "recur, filestore frozen afterwards) and the structure of the model's finalize_receive; it is tied by the recv stream "
+                      "with requests and decided on the real code by the C13 oracle there. That the sending user sees the same responses is "
+                      "the sender model copying them from the Finished PDU (not a theorem). Trusted: Coq kernel; extraction; driver/harness; the behaviour of std::fs on a directory tree as modelled in "
                       "FsModel.v (compared with the real filesystem on every run, not proved); path resolution per C12.",
         "assumptions": ["std::fs behaves on the tree as modelled: no permission failures, no symbolic links, no concurrent modification, a failing "
                         "call changes nothing",
